@@ -30,6 +30,10 @@ CHECKS = {
          "All (N, M) around the bound for canonical 2/3-member weak loops in 5 placements under rotating schedules, non-settling loops, generated multi-weak scenarios (envelope only).", "3/C09"),
  "C13": ("fault_enumeration", "A", "runtime monitoring with fault injection: every malformed reply value x step index x simulator position; expected rejection naming the simulator",
          "Enumerates (simulator, step index, malformed value) over generated scenarios; checks error text, no further request to the offender, consistent step set of everybody.", "3/C13"),
+ "C14": ("fault_enumeration", "B", "runtime monitoring with fault injection over real simulator processes: every request index x {process exit, exception, connection abort}; containment checklist (processes, finalize counts, pending tasks at loop.close(), ResourceWarnings)",
+         "Enumerates every (simulator, request index, kind) of a small catalogue with remote/in-process mixes; hangs judged only if reproduced twice.", "4/C14"),
+ "C15": ("exploration", "B", "runtime monitoring: requests recorded by stub simulators (in-process v1/v2/v3 signatures, raw-socket process) against the version table; differential 2.x vs 3.0",
+         "All version strings x explicit api_version x transport x type present/absent.", "4/C15"),
  "C16": ("exploration", "A", "runtime monitoring: exactly-once history check of set_data values with unique ids; ordering oracle; refusal of unauthorised requests",
          "Generated agent scenarios (ratios, 1-3 agents, sparse writes) under controlled schedules.", "3/C16"),
  "C17": ("exploration", "A", "runtime monitoring on a virtual clock: pacing arithmetic, too-slow reports, rt_strict differential, injected set_event",
